@@ -173,7 +173,7 @@ def one_library(ctx, g, space, tag, scale):
         for s2 in targets:
             for j in range(ntuples if s[0] != "vsum" else 3):
                 cid += 1
-                case, expect = b.case(cid, name, s2, pbad=0.3, force_ok=(j == 0))
+                case, expect = b.case(cid, name, s2, pbad=0.3, force_ok=(j == 0), single_bad=True)
                 cases.append(case)
                 meta[cid] = (s2, expect)
     obs, crashes = R.execute(ctx, plan, cases, BUILDS, nworkers=2)
@@ -237,7 +237,8 @@ def run(ctx):
                        "on the three builds; every behaviour has >= 10 events on >= 2 globals")
     ctx.cov["exhaustive"] = False
     ctx.assumptions += [
-        "struct arguments given as partial initializers (C13 finding) are not generated here",
+        "struct arguments given as partial initializers (C13 finding) are not generated here; at most one "
+        "argument of a call is unconvertible (which of two errors is reported first is not constrained)",
         "sizeof/offsetof reference = gcc on this platform; dir(lib) must list exactly the declared names",
         "the three builds are separate shared objects, each with its own copy of the globals"]
 
